@@ -53,7 +53,7 @@ m = {
               "kind_free_text": "Python orchestrator (tools/checklib.py, tools/plans.py): Rust harness (drivers, parser sweep, stress, replay) -> ndjson traces -> TLC trace validation (spec/Trace.tla); TLC bounded models (spec/MC*.tla, MC_*.cfg) whose transitions are replayed on the real code"}],
  "checks": checks,
  "not_applicable": [],
- "notes": "fix: commits in /repo: 66f66d6 (C05 RI/origin), c69572b (C18 Tabs::expand), 4e25776 (C19 cursor-key mode). Known findings: /verif/known_findings.json (C11-a, C11-b). Seeded changes: /verif/seeded (60, all detected by their owner's quick check); property-preserving patches: /verif/benign (no alarms). tools/selftest.py demonstrates the binding."
+ "notes": "fix: commits in /repo: 66f66d6 (C05 RI/origin), c69572b (C18 Tabs::expand), 4e25776 (C19 cursor-key mode). Known findings: /verif/known_findings.json (C11-a, C11-b). Seeded changes: /verif/seeded (all detected by their owner's quick check; DESIGN.md section 11); property-preserving patches: /verif/benign (no alarms). tools/selftest.py demonstrates the binding."
 }
 json.dump(m, open(os.path.join(ROOT, "MANIFEST.json"), "w"), indent=1)
 print("ok")
